@@ -1,5 +1,6 @@
 import Gtree.Lemmas.SourceRefines
 import Gtree.Lemmas.HeapBuilder
+import Gtree.Lemmas.HeapZipper
 import Gtree.Lemmas.HeapGrower
 import Gtree.Lemmas.HeapSpread
 import Gtree.Lemmas.Output
@@ -190,4 +191,41 @@ theorem C01_dfs_is_the_source (h : SrcH.Heap) (stk : List Go.Ptr) (c : Go.Ptr) (
        | none => (h, [], false)
        | some (p, rest) => SrcH.attach h c p rest) :=
   SrcH.dfs_spec h stk c hne
+end Gtree
+
+namespace Gtree
+/-- Tie to the source, from the rows of a block to the printed lines (heap mode, regenerated on every run): THE TREE
+    BUILDER'S STEP COMPOSED OVER A ROOT BLOCK, THEN THE GROWER.  A fresh root node and the fresh nodes `newNode` makes
+    for the block's rows (not nil, pairwise different, named and levelled as the rows say, no children yet) are fed one
+    after the other through the translated `stack.dfs` (`feedH`; the loop around it — scanner, parser, counter — is the
+    hand-written part).  For every heap and every sequence of rows: if the model's zipper (`Model/Generate.lean`:
+    `dfs` = `closeTo` then `descend`, folded by `feedM`) rejects a row, the code's `dfs` returns false at that row;
+    otherwise the heap afterwards holds, at the bottom of the stack (still the root node), exactly the tree the model
+    builds (`closeAll`) — equally named siblings merged as `C01_generate_roundtrip` says — with all pointers different,
+    and the translated grower then leaves the model's `growRoot` of that tree in its nodes.  Proof: a representation
+    invariant between heap + stack and zipper (`Lemmas/HeapZipper.lean`: `ZR`; popping is `upOne`, `popTo` is `closeTo`,
+    `attach` is `descend`; writes stay outside the closed subtrees because all represented pointers differ). -/
+theorem C01_builder_is_the_source (dg : SrcH.defaultGrowerSimple) (hv : dg.enabledValidation = false)
+    (h : SrcH.Heap) (r : Go.Ptr) (x : Bytes) (cs : List Go.Ptr) (its : List (Nat × Bytes))
+    (hr0 : r ≠ 0) (hn : (h r).name = x) (hl : (h r).hierarchy = 1) (hp : (h r).parent = 0) (hc : (h r).children = [])
+    (hi : SrcH.Items h cs its) (hnd : (r :: cs).Nodup) :
+    (match SrcH.feedM [{ name := x, left := [], right := [] }] its with
+     | none => SrcH.feedH h [r] cs = none
+     | some z' => ∃ h' stk t, SrcH.feedH h [r] cs = some (h', stk) ∧ closeAll z' = some t ∧ stk.head? = some r ∧
+         SrcH.Repr h' t r 0 1 ∧ (SrcH.ptrs h' t r).Nodup ∧
+         ∀ fuel, 2 * t.size + 1 ≤ fuel →
+           ∃ h'', SrcH.defaultGrowerSimple.assemble fuel h' dg r = some (h'', none) ∧
+             SrcH.readNode h'' t r 1 = growRoot (SrcH.fmtOf dg) t) := by
+  have hb := SrcH.block_builds_the_model_root h r x cs its hr0 hn hl hp hc hi hnd
+  cases hm : SrcH.feedM [{ name := x, left := [], right := [] }] its with
+  | none => simp only [hm] at hb ⊢; exact hb
+  | some z' =>
+    simp only [hm] at hb ⊢
+    obtain ⟨h', stk, t, hrun, hclose, hhead, hrepr, hndp⟩ := hb
+    refine ⟨h', stk, t, hrun, hclose, hhead, hrepr, hndp, ?_⟩
+    intro fuel hf
+    obtain ⟨h'', hgrow, hrest⟩ := SrcH.assemble_root dg t h' r fuel hrepr hndp hf
+    have he : SrcH.expErr dg (growRoot (SrcH.fmtOf dg) t) = none := by simp [SrcH.expErr, hv]
+    rw [he] at hgrow
+    exact ⟨h'', hgrow, (hrest he).2.2⟩
 end Gtree
